@@ -81,6 +81,17 @@ theorem G4 (R : T → T → Prop) (a x : T) (h : TransGen R a x) : ∃ p, R p x 
   · exact Or.inl h1.symm
   · exact Or.inr h1
 
+/-- transpose_acyclic: a relation is acyclic iff its transpose is (graph_theory.TRANSP_AX). -/
+theorem transpose_acyclic (R R' : T → T → Prop) (h : ∀ a x, R' a x ↔ R x a) : Acyclic R ↔ Acyclic R' := by
+  have hR' : R' = Function.swap R := by
+    funext a x; exact propext (h a x)
+  subst hR'
+  constructor
+  · intro hac x hx
+    exact hac x (transGen_swap.mp hx)
+  · intro hac x hx
+    exact hac x (transGen_swap.mpr hx)
+
 /-! ## Forests given by a parent map (lemmas D1–D5) -/
 
 def E (par : T → Option T) (a x : T) : Prop := par x = some a
@@ -224,6 +235,20 @@ theorem D4acyc (par : T → Option T) (s p : T) (hac : Acyc par) (hp : ¬ Sub pa
 
 theorem E_fun (par : T → Option T) {a b x : T} (h1 : E par a x) (h2 : E par b x) : a = b :=
   Option.some.inj (h1.symm.trans h2)
+
+/-- CL1: a set closed under children contains every descendant of its members (closure.CLOSED_AX). -/
+theorem CL1 (par : T → Option T) (S : T → Prop) (hcl : ∀ a x, par x = some a → S a → S x)
+    (t x : T) (h : Desc par t x) (ht : S t) : S x := by
+  induction h with
+  | single h => exact hcl _ _ h ht
+  | tail _ h2 ih => exact hcl _ _ h2 ih
+
+/-- CL2: ... and every descendant of a node all of whose children are members. -/
+theorem CL2 (par : T → Option T) (S : T → Prop) (hcl : ∀ a x, par x = some a → S a → S x)
+    (r : T) (hr : ∀ x, par x = some r → S x) (x : T) (h : Desc par r x) : S x := by
+  induction h with
+  | single h => exact hr _ h
+  | tail _ h2 ih => exact hcl _ _ h2 ih
 
 /-- D6: downward unfolding — the first step of a path from `t` to `x` goes to a child of `t`. -/
 theorem D6 (par : T → Option T) (t x : T) (h : Desc par t x) :
